@@ -179,7 +179,7 @@ func protoIDToTokenIDV2(input *pb.TermV2) (*datalog.Term, error) {
 			if err != nil {
 				return nil, err
 			}
-			datalogSet = append(datalogSet, *datalogElt)
+			datalogSet = appendSetElement(datalogSet, *datalogElt)
 		}
 		id = datalogSet
 	default:
